@@ -729,7 +729,7 @@ func vmCallOK(vm *VM, cfunc *CompiledFunction, numArgs int) bool {
 			return !(vm.sp-numArgs <= k && k < vm.sp) || vm.stack[k] != nil
 		}) &&
 		vm.ip < len(vm.curInsts)-4 &&
-		0 <= vm.frameIndex && vm.frameIndex < frameSize &&
+		1 <= vm.frameIndex && vm.frameIndex < frameSize && vm.curFrame == &vm.frames[vm.frameIndex-1] &&
 		0 <= vm.curFrame.basePointer && vm.curFrame.basePointer < stackSize && vm.curFrame.basePointer+cfunc.NumLocals < stackSize &&
 		// a function calling itself has its own locals below the callee object and the arguments
 		(cfunc != vm.curFrame.fn || vm.curFrame.basePointer+cfunc.NumLocals <= vm.sp-numArgs-1)
